@@ -1,7 +1,7 @@
 (** C13 — membership: no false deaths on a healthy network, real failures are detected.
     Only statements; every proof is in NodeProofs.v / PhiProofs.v / NetProofs.v. *)
 From HS Require Import Base.Prelude C13.Model C13.PhiModel C13.Net C13.NetCheck C13.NodeProofs C13.PhiProofs
-  C13.NetProofs C13.NetCheckProofs C13.ProbeOrder C13.NetCrash C13.NetCrashCheck.
+  C13.NetProofs C13.NetCheckProofs C13.ProbeOrder C13.NetCrash C13.NetCrashCheck C13.Examples.
 From Coq Require Import QArith.
 Local Open Scope Z_scope.
 
@@ -98,7 +98,7 @@ Print Assumptions c13_no_false_dead_mesh.
 (** the hypotheses are satisfiable: probe interval 1 s, ack timeout 0.5 s, delays up to 0.2 s *)
 Example cfg_ok_satisfiable :
   cfg_ok (fun i => mkCfg i 1000000000 500000000 5000000000 3 true) 200000000.
-Proof. split; [lia|]. intros n; cbn. lia. Qed.
+Proof. exact cfg_ok_satisfiable_holds. Qed.
 
 (** Tie of the cluster relation to the implementation: a recorded run of a real cluster (the
     handler calls of all nodes in engine order with the observed message delays) that the
@@ -131,7 +131,7 @@ Print Assumptions c13_probed_within_two_rounds.
 Example probed_example :
   let ms := members (init_state [1; 2; 3] [1; 2; 3]) in
   probes ms [1; 2; 3] 1 [[]; []; [3; 2; 1]; []; []] = [2; 3; 3; 2; 1].
-Proof. vm_compute. reflexivity. Qed.
+Proof. exact probed_example_holds. Qed.
 
 (** Detection through phi: at a probe tick, an ALIVE member for which [is_available] is false
     (or that was never heard of while the threshold is not positive) is SUSPECT afterwards. *)
@@ -187,4 +187,18 @@ Example detection_example :
    option_map m_state (find_member 1 (members s3)),
    option_map m_state (find_member 1 (members s4)))
   = (true, Some 0, Some Suspect, Some Dead, Some Dead).
-Proof. vm_compute. reflexivity. Qed.
+Proof. exact detection_example_holds. Qed.
+
+(** phi at two arbitrary instants (also before the last heartbeat): never decreasing and never
+    negative, using additionally erfc <= 2 and log10 1 <= 0. *)
+Theorem c13_phi_monotone_all :
+  forall (erfc log10 sqrt : Q -> Q) (sqrt2 : Q),
+    (forall x y, (x <= y)%Q -> (erfc y <= erfc x)%Q) ->
+    (forall x y, (0 < x)%Q -> (x <= y)%Q -> (log10 x <= log10 y)%Q) ->
+    (0 < sqrt2)%Q ->
+    forall d t1 t2,
+      (forall x, (erfc x <= 2)%Q) -> (log10 1 <= 0)%Q ->
+      (0 < d_min_std d)%Q -> (t1 <= t2)%Q ->
+      ext_le (phi erfc log10 sqrt sqrt2 d t1) (phi erfc log10 sqrt sqrt2 d t2).
+Proof. exact phi_monotone_all. Qed.
+Print Assumptions c13_phi_monotone_all.
